@@ -171,4 +171,52 @@ theorem replacer_order_irrelevant (content : Bytes) (ps : List Patch) (hw : Word
     replace m' content = replace (replacerOf cfg content ps) content :=
   replace_perm cfg marker_cfg_facts content ps hw m' hp
 
+/-! ### patch points with arbitrary characters: the literal-key path
+
+`Add` puts `plugin.InsertionPoint(p)` into the replacer's map whatever bytes `p` has (`-`, `/`, space,
+non-ASCII, parentheses, `@`): such a marker is not found by the regexp, the patch itself supplies the key. -/
+
+/-- for every content and every list of patches (no restriction on the points): the result is the
+rendering of the content cut by the replacer's key set — regexp markers of the content and the literal
+marker texts of all patch points — each key occurrence replaced by its patches in submission order. -/
+theorem literal_keys_rendered (content : Bytes) (ps : List Patch) :
+    replace (replacerOf cfg content ps) content = render cfg ps (keyScan cfg content ps) :=
+  replace_eq_renderKeys cfg marker_cfg_facts content ps
+
+/-- … and wherever that scan stands before the literal marker text of a patched point `p` (any bytes),
+it takes exactly this key and resumes after it: the patch is applied there (prefix-free key set). -/
+theorem patch_applied_at_literal_marker (content : Bytes) (ps : List Patch)
+    (hpf : PrefixFreeKeys (replacerOf cfg content ps)) (p : Patch) (hp : p ∈ ps) (b : Bytes) :
+    segment (keyLen (replacerOf cfg content ps)) 0 (pointKey cfg p.ip ++ b) =
+      .chunk (pointKey cfg p.ip) :: segment (keyLen (replacerOf cfg content ps)) 0 b :=
+  keyScan_at_literal_marker cfg marker_cfg_facts content ps hpf p hp b
+
+/-- the hypothesis is decidable on the key list and satisfiable with a point outside the alphabet:
+content `x@@thriftgo_insertion_point(a-b)y`, patch for `a-b` -/
+example : PrefixFreeKeys (replacerOf cfg
+    ([120] ++ cfg.pre ++ [97, 45, 98, 41, 121]) [⟨[97, 45, 98], [80]⟩]) :=
+  prefixFreeKeys_of_list _ (by decide)
+
+/-- Go map order is irrelevant for every prefix-free key set, also with points outside the alphabet. -/
+theorem replacer_order_irrelevant_literal (content : Bytes) (ps : List Patch)
+    (hpf : PrefixFreeKeys (replacerOf cfg content ps))
+    (m' : List (Bytes × Bytes)) (hp : m'.Perm (replacerOf cfg content ps)) :
+    replace m' content = replace (replacerOf cfg content ps) content :=
+  replace_perm_prefixFree _ m' hp (replacerOf_keys_nodup cfg content ps) hpf content
+
+/-! ### the Go backend as producer of Feed's input -/
+
+/-- regenerated obligation (generator/golang/backend.go, renderByTemplate): per rendered file the backend
+appends a named item without insertion point, then a *nameless* item with an insertion point. -/
+theorem backend_emits_file_then_nameless_patch : backendItems = [(true, false), (false, true)] := by decide
+
+/-- for such a pair, after any history: either the file is a duplicate and both items change nothing,
+or the file is stored (under its name or a fresh derived one) and the patch goes to exactly that file. -/
+theorem backend_pair_targets_own_file (calls : List (List Item)) (last : Bytes) (skip : Bool) (f u : Item) (n : Bytes)
+    (rest : List Item) (hn : f.name = some n) (hne : n ≠ []) (hip : f.ip = []) (hu : u.name = none) :
+    feedLoop (after calls) last skip (f :: u :: rest) = feedLoop (after calls) last true rest ∨
+    ∃ m st', Fam n m ∧ st'.files = (after calls).files ++ [(m, f.content)] ∧ st'.patch = (after calls).patch ∧
+      feedLoop (after calls) last skip (f :: u :: rest) = feedLoop (addPatch st' m u) m false rest :=
+  feedLoop_file_then_patch _ (Inv.feedAll calls Inv.init) last skip f u n rest hn hne hip hu
+
 end Props.C12
